@@ -35,7 +35,7 @@ CONTRACTS = {
     Q + "Digit::parseExponent": C(buffers={"content": "end_offset"},
                                   ensures={"offset": [("inc",), ("le", "end_offset")]}),
     # ---- JSON
-    Q + "JSONUtils::UnEscape": C(buffers={"content": "length"}),
+    Q + "JSONUtils::UnEscape": C(buffers={"content": "length"}, ret=[("le", "length")]),
     # ---- Finder / Template
     Q + "Finder::Next": C(buffers={"f:content_": "f:length_"}, invariants=[("f:offset_", "f:length_", 0)],
                           foreign={"word": "static word table, indices decided by TB-words",
